@@ -254,6 +254,9 @@ impl<H: Hasher> BatchMerkleProof<H> {
     /// * Number of provided indexes is greater than 255.
     /// * Number of provided indexes does not match the number of leaf nodes in the proof.
     /// * The depth of the proof is 64 or more (a tree cannot have that many leaves).
+    /// * Any of the specified `indexes` is greater than or equal to the number of leaves in the
+    ///   tree for which this batch proof was generated.
+    /// * List of indexes contains duplicates.
     pub fn into_paths(self, indexes: &[usize]) -> Result<Vec<Vec<H::Digest>>, MerkleTreeError> {
         if indexes.is_empty() {
             return Err(MerkleTreeError::TooFewLeafIndexes);
@@ -268,6 +271,9 @@ impl<H: Hasher> BatchMerkleProof<H> {
             return Err(MerkleTreeError::InvalidProof);
         }
 
+        // make sure the indexes are valid for a tree of the specified depth
+        let index_map = super::map_indexes(indexes, self.depth as usize)?;
+
         let mut partial_tree_map = BTreeMap::new();
 
         for (&i, leaf) in indexes.iter().zip(self.leaves.iter()) {
@@ -279,7 +285,6 @@ impl<H: Hasher> BatchMerkleProof<H> {
 
         // replace odd indexes, offset, and sort in ascending order
         let original_indexes = indexes;
-        let index_map = super::map_indexes(indexes, self.depth as usize)?;
         let indexes = super::normalize_indexes(indexes);
         if indexes.len() != self.nodes.len() {
             return Err(MerkleTreeError::InvalidProof);
